@@ -91,6 +91,8 @@ pub struct AppendModel<T: Item> {
 	pub seeds: Vec<usize>,
 	pub max_depth: u8,
 	pub max_batch: usize,
+	/// true: every (alias form, target) combination for every batch; false: a rotating schedule
+	pub all_forms: bool,
 	pub _p: std::marker::PhantomData<T>,
 }
 
@@ -121,7 +123,7 @@ impl<T: Item> Model for AppendModel<T> {
 					for target in 0..2u8 {
 						// alias forms and targets share one code path per call; vary them on a rotating
 						// schedule instead of multiplying the branching factor by eight
-						if (form + 2 * target) as usize % 8 != (s.items.len() + len + m as usize) % 8 {
+						if !self.all_forms && (form + 2 * target) as usize % 8 != (s.items.len() + len + m as usize) % 8 {
 							continue;
 						}
 						out.push(Act { batch: batch.clone(), form, target });
@@ -150,13 +152,36 @@ impl<T: Item> Model for AppendModel<T> {
 
 fn run_item<T: Item>(tier: Tier, rep: &mut Report) {
 	let depth = if tier.thorough() { 5 } else { 4 };
+	{
+		// all alias forms x targets with batches of 0..=1 items
+		let d = if tier.thorough() { 5 } else { 4 };
+		let r = space::explore(|| AppendModel::<T> { seeds: vec![0, 63], max_depth: d, max_batch: 1, all_forms: true, _p: Default::default() });
+		let mut acc = Acc::default();
+		acc.states += r.unique_states;
+		acc.transitions += r.generated_states;
+		acc.traces += r.generated_states;
+		acc.evaluations += r.generated_states;
+		acc.nontrivial += r.unique_states.saturating_sub(2);
+		acc.outcome(if r.counterexamples.is_empty() { "invariant-holds" } else { "counterexample" });
+		for (_, path) in &r.counterexamples {
+			acc.violate(Violation {
+				property: "C15".into(),
+				sub: "C15.hist".into(),
+				key: format!("C15|{}|append-history", T::NAME),
+				detail: format!("after {} appends (all alias forms) the bytes differ from the encoding of the concatenated sequence (or the call failed)", path.len()),
+				case: json!({"sub": "C15.hist", "item": T::NAME, "seeds": [0, 63],
+					"actions": path.iter().map(|a| json!({"batch": a.batch, "form": a.form, "target": a.target})).collect::<Vec<_>>()}),
+			});
+		}
+		rep.part(&format!("{} all alias forms", T::NAME), "stateright BFS: batches of 0..=1 items through every (T, &T, Box<T>, Ref<T>) x (Vec, VecDeque) combination from empty input and from 63 items", acc);
+	}
 	for (label, seeds, d) in [
 		("from empty", vec![0usize], depth),
 		("across 63/64", vec![61, 62, 63, 64], 3.min(depth)),
 		("across 16383/16384", vec![16381, 16382, 16383, 16384], if T::NAME == "u8" || tier.thorough() { 3 } else { 2 }),
 	] {
 		let mut acc = Acc::default();
-		let r = space::explore(|| AppendModel::<T> { seeds: seeds.clone(), max_depth: d, max_batch: 3, _p: Default::default() });
+		let r = space::explore(|| AppendModel::<T> { seeds: seeds.clone(), max_depth: d, max_batch: 3, all_forms: false, _p: Default::default() });
 		acc.states += r.unique_states;
 		acc.transitions += r.generated_states;
 		acc.traces += r.generated_states;
@@ -296,6 +321,11 @@ pub fn run(tier: Tier) -> Report {
 	for k in [0usize, 1, 63, 64, 16383, 16384, (1 << 30) - 1, 1 << 30, (1 << 32) - 1, 1 << 32, (1 << 32) + 1] {
 		cases.push((0, k, true));
 	}
+	for n in [0u64, 1, 60, 63, 64, 16000, 16383, 16384] {
+		for k in [60usize, 64, 16320, 16384, 20000, (1 << 30) - 64, 1 << 30, (1 << 30) + 5] {
+			cases.push((n, k, false));
+		}
+	}
 	let acc = par(&cases, |(n, k, fe), acc| {
 		acc.evaluations += 1;
 		acc.transitions += 1;
@@ -316,6 +346,54 @@ pub fn run(tier: Tier) -> Report {
 		}
 	});
 	rep.part("unit items", "zero-sized items: existing counts on and around 63/64, 2^14, 2^30, 2^32 x batch lengths 0..4 and 2^32-1, 2^32, 2^32+1; overflow must be an error", acc);
+
+	// one batch that jumps over one or two prefix widths at once (1 -> 4 bytes, 2 -> 5 bytes, ...)
+	let mut jumps: Vec<(usize, usize, u8)> = vec![];
+	for old in [0usize, 1, 3, 62, 63, 64, 100, 16383, 16384] {
+		for k in [61usize, 62, 63, 64, 16320, 16381, 16383, 16384, 20000] {
+			for ty in 0..3u8 {
+				jumps.push((old, k, ty));
+			}
+		}
+	}
+	let acc = par(&jumps, |(old, k, ty), acc| {
+		fn one<T: Item>(old: usize, k: usize) -> Result<(), String> {
+			let al = T::alphabet();
+			let items: Vec<u8> = (0..old + k).map(|i| ((i * 5 + i / 7) % 2) as u8).collect();
+			let start = if old == 0 { vec![0u8] } else { expected::<T>(&items[..old]) };
+			let batch: Vec<T> = items[old..].iter().map(|i| al[*i as usize].clone()).collect();
+			let got = guarded(|| <Vec<T> as EncodeAppend>::append_or_new(start, batch.iter()))
+				.map_err(|p| format!("{} items + batch of {}: panicked: {}", old, k, p))?
+				.map_err(|e| format!("{} items + batch of {}: failed: {}", old, k, e))?;
+			if got != expected::<T>(&items) {
+				return Err(format!("{} {} items + one batch of {}: bytes differ from the encoding of the {} items (got {} bytes, prefix {})", T::NAME, old, k, old + k, got.len(), hex(&got[..got.len().min(6)])));
+			}
+			Ok(())
+		}
+		acc.evaluations += 1;
+		acc.transitions += 1;
+		let r = match ty {
+			0 => one::<u8>(*old, *k),
+			1 => one::<u32>(*old, *k),
+			_ => one::<String>(*old, *k),
+		};
+		match r {
+			Ok(()) => {
+				acc.states += 1;
+				acc.traces += 1;
+				acc.nontrivial += 1;
+				acc.outcome("width-jump-ok");
+			},
+			Err(detail) => acc.violate(Violation {
+				property: "C15".into(),
+				sub: "C15.jump".into(),
+				key: "C15|append-width-jump".into(),
+				detail,
+				case: json!({"sub": "C15.jump", "old": old, "k": k, "ty": ty}),
+			}),
+		}
+	});
+	rep.part("width jumps", "an existing sequence of 0..16384 items receiving one batch of 61..20000 items (u8, u32, String): the count prefix may widen by more than one step at once", acc);
 
 	// starts
 	let mut starts: Vec<Vec<u8>> = vec![vec![]];
@@ -369,6 +447,26 @@ pub fn replay(case: &Json) -> Option<String> {
 	match case["sub"].as_str().unwrap() {
 		"C15.unit" => unit_check(case["n"].as_u64().unwrap(), case["k"].as_u64().unwrap() as usize, case["from_empty"].as_bool().unwrap()).err(),
 		"C15.start" => start_check(&unhex(case["start"].as_str().unwrap())).err(),
+		"C15.jump" => {
+			let (old, k) = (case["old"].as_u64().unwrap() as usize, case["k"].as_u64().unwrap() as usize);
+			fn one<T: Item>(old: usize, k: usize) -> Option<String> {
+				let al = T::alphabet();
+				let items: Vec<u8> = (0..old + k).map(|i| ((i * 5 + i / 7) % 2) as u8).collect();
+				let start = if old == 0 { vec![0u8] } else { expected::<T>(&items[..old]) };
+				let batch: Vec<T> = items[old..].iter().map(|i| al[*i as usize].clone()).collect();
+				match guarded(|| <Vec<T> as EncodeAppend>::append_or_new(start, batch.iter())) {
+					Ok(Ok(got)) if got == expected::<T>(&items) => None,
+					Ok(Ok(_)) => Some("bytes differ from the encoding of the concatenated sequence".into()),
+					Ok(Err(e)) => Some(format!("failed: {}", e)),
+					Err(p) => Some(format!("panicked: {}", p)),
+				}
+			}
+			match case["ty"].as_u64().unwrap() {
+				0 => one::<u8>(old, k),
+				1 => one::<u32>(old, k),
+				_ => one::<String>(old, k),
+			}
+		},
 		"C15.hist" => {
 			let acts: Vec<Act> = case["actions"]
 				.as_array()
